@@ -186,4 +186,22 @@ C17_ReadOnly(pre, call, res, post, g, h) ==
   /\ call.op \in {"retrieve", "hex", "getmeta"} => post = pre /\ FsSame(res)
   /\ (call.op = "delete" /\ res.cls = "nopid") => post = pre /\ FsSame(res)
 
+(***************************************************************************)
+(* C18  identifiers are opaque: a call on one pid / (pid, format) pair     *)
+(* never touches what belongs to another; created files stay inside the    *)
+(* root at hash-derived locations (res.escape: number of file-system       *)
+(* operations the interposer saw outside that discipline)                  *)
+(***************************************************************************)
+Mine(s, q) == [pref |-> s.pref[q], doc |-> s.doc[q],
+               lists |-> [c \in Cid |-> CountIn(q, s.cref[c].pids)]]
+C18_Bystander(pre, call, res, post, g, h) ==
+  /\ call.pid \in Pid =>
+       /\ \A q \in Pid \ {call.pid} : Mine(post, q) = Mine(pre, q)
+       /\ \A q \in Pid \ {call.pid} :
+            (pre.pref[q] \in Cid /\ pre.obj[pre.pref[q]] = "ok") => post.obj[pre.pref[q]] = "ok"
+  /\ call.op \in {"putmeta", "getmeta", "delmeta"} /\ call.fmt # NoFmt =>
+       \A f \in Fmt \ {call.fmt} : post.doc[call.pid][f] = pre.doc[call.pid][f]
+C18_Contained(pre, call, res, post, g, h) ==
+  "escape" \in DOMAIN res => res.escape = 0
+
 =============================================================================
